@@ -9,13 +9,13 @@ cd $WT || exit 1
 git diff > /tmp/cur_$NAME.diff
 if ! diff -q /tmp/cur_$NAME.diff $SO/patch.diff >/dev/null; then echo "NOTE: worktree diff differs from patch.diff; re-applying"; git checkout -- . ; git apply $SO/patch.diff || exit 1; fi
 DEMO=$SO/demo
-run_demo() { (cd $DEMO && timeout 1200 cargo test --offline 2>&1 | tail -15); }
-echo "== demo WITH patch (expect failure)"; run_demo > $OUT/demo_with.log; grep -E "test result|FAILED|failed" $OUT/demo_with.log | head -5
+run_demo() { if [ -f $DEMO/run_demo.sh ]; then (cd $DEMO && WT=$WT timeout 1800 sh ./run_demo.sh > /tmp/demo_$NAME.out 2>&1; rc=$?; tail -15 /tmp/demo_$NAME.out; echo "DEMO-EXIT=$rc"); else (cd $DEMO && timeout 1200 cargo test --offline 2>&1 | tail -15); fi; }
+echo "== demo WITH patch (expect failure)"; run_demo > $OUT/demo_with.log; grep -E "test result|FAILED|failed|DEMO-EXIT" $OUT/demo_with.log | head -5
 echo "== full suite WITH patch"; timeout 3000 cargo test --workspace --no-fail-fast --offline > /tmp/suite_$NAME.log 2>&1
 grep -E "^test .*\.\.\. FAILED" /tmp/suite_$NAME.log | sort > $OUT/suite_failed.txt
 grep -c "\.\.\. ok" /tmp/suite_$NAME.log; cat $OUT/suite_failed.txt | wc -l; cat $OUT/suite_failed.txt
 rm -f fixtures/snapshots/output-*.txt
-echo "== demo WITHOUT patch (expect pass)"; git stash -q; run_demo > $OUT/demo_without.log; grep -E "test result|FAILED|failed" $OUT/demo_without.log | head -5; git stash pop -q
+echo "== demo WITHOUT patch (expect pass)"; git stash -q; run_demo > $OUT/demo_without.log; grep -E "test result|FAILED|failed|DEMO-EXIT" $OUT/demo_without.log | head -5; git stash pop -q
 cp $SO/patch.diff $OUT/patch.diff; cp $SO/notes.md $OUT/notes.md 2>/dev/null
 rm -rf $OUT/demo; mkdir -p $OUT/demo; (cd $DEMO && tar cf - --exclude target --exclude Cargo.lock . ) | tar xf - -C $OUT/demo
 echo "== check against /repo with the patch"
@@ -35,8 +35,8 @@ chk=rd('check_with_patch.log')
 meta={"property":P,"name":NAME,
  "source":"fresh sub-agent given only the property text and a scratch worktree",
  "needs_to_manifest": (re.search(r"(?is)(what it takes to trigger|condition[s]? needed|when it shows up|how it manifests|manifest)[^\n]*\n(.{0,600})", rd('notes.md')) or [None,None,"see notes.md"])[2].strip()[:600],
- "confirmed":{"demo_fails_with_patch": "FAILED" in rd('demo_with.log') or "panicked" in rd('demo_with.log'),
-              "demo_passes_without_patch": "test result: ok" in rd('demo_without.log') and "FAILED" not in rd('demo_without.log'),
+ "confirmed":{"demo_fails_with_patch": "FAILED" in rd('demo_with.log') or "panicked" in rd('demo_with.log') or bool(re.search(r"DEMO-EXIT=[1-9]", rd('demo_with.log'))),
+              "demo_passes_without_patch": ("test result: ok" in rd('demo_without.log') and "FAILED" not in rd('demo_without.log')) or "DEMO-EXIT=0" in rd('demo_without.log'),
               "suite_failures_with_patch": failed, "suite_only_known_8_fail": len(failed)==8},
  "ran":["cargo test --offline in the demonstration crate with and without the patch (scratch worktree)",
         "cargo test --workspace --no-fail-fast --offline in the patched scratch worktree",
